@@ -33,6 +33,10 @@ Mail data objects: BytesIO, or (30%) a pipe-like reader whose read(n) returns a 
 (1 byte, random short, alternating full/1, first read short, stopping right before/after a newline or right before a
 dot line) — "any chunking of the client's reads" is more than CHUNK_SIZE.
 
+Link mode (25% of connections, 60% of those with an over-long line): the transport keeps delivering the
+client's remaining segments to the server after the server called loseConnection() (TLS / wrappers do); the
+oracle is unchanged.
+
 Guards: bodies have at least one line, no CR; a body
 without final newline counts its last unterminated piece as a line; timeouts are disabled (no
 reactor timers); response texts are not compared.
@@ -58,7 +62,7 @@ RULE = ("random bodies (1..40 lines, < 900 bytes) rich in '.', '..', '.x' lines 
 ASSUMPTIONS = ["trusted base: the E2 link (vf/engines/netsim.py) and the 10-line expected-message computation in this module",
                "the client and server run without timeouts; SMTP replies are whatever the real server sends"]
 SHARDS = {"quick": 4, "thorough": 16}
-FLOORS = {"short_read_cases": 800, "short_reads_delivered": 3000, "application_deferreds_fired_later": 1500, "deferred_kind_called-chained": 300, "deferred_kind_paused": 300, "deferred_kind_pending": 300,
+FLOORS = {"segments_delivered_after_loseconnection": 100, "keep_delivering_connections": 1000, "short_read_cases": 800, "short_reads_delivered": 3000, "application_deferreds_fired_later": 1500, "deferred_kind_called-chained": 300, "deferred_kind_paused": 300, "deferred_kind_pending": 300,
           "recipients_rejected": 150, "messages_refused_midway": 50, "second_message_after_failure_or_rejection": 80, "long_line_bodies": 200,
           "line_exactly_at_server_limit": 5, "bodies_with_line_beyond_server_limit": 10, "messages_compared": 1000, "message_lines_compared": 5000, "eom_observed": 1000, "server_commands_logged": 4000,
           "dot_lines_sent": 2000, "dot_line_at_chunk_start": 200, "dot_line_not_at_chunk_start": 500, "no_final_newline": 50,
@@ -362,7 +366,25 @@ def run_connection(rng, bodies, chunk, nrcpt, hdr, server_cls, seg_mode, plan=No
     saved = basic.FileSender.CHUNK_SIZE
     basic.FileSender.CHUNK_SIZE = chunk
     try:
-        link = Link(cli, srv, names=("cli", "srv"))
+        keep = bool(plan and plan.get("keep_delivering"))
+
+        class KeepLink(Link):
+            """A transport that keeps handing already received data to the protocol after loseConnection()
+            (TLS memory BIO, wrappers): before the close completes, the rest of the client's stream is delivered."""
+            after = 0
+
+            def finish_close(self, side):
+                if keep and side is self.b and not side.transport.aborted:
+                    for _ in range(5000):
+                        if self.a.transport.pending():
+                            data = self.a.transport.take(seg(rng, self.a.transport.pending()))
+                            KeepLink.after += 1
+                            side.protocol.dataReceived(data)
+                        elif not self.a.transport.sim_resume_producer():
+                            break
+                Link.finish_close(self, side)
+
+        link = KeepLink(cli, srv, names=("cli", "srv"))
         link.connect(first="b")
 
         def seg(r, pending):
@@ -387,6 +409,7 @@ def run_connection(rng, bodies, chunk, nrcpt, hdr, server_cls, seg_mode, plan=No
     finally:
         basic.FileSender.CHUNK_SIZE = saved
         globalLogPublisher.removeObserver(logged.append)
+    log.append(("after-lose", link.after))
     for ev in logged:
         f = ev.get("log_failure")
         if f is not None:
@@ -407,6 +430,7 @@ def check_connection(ctx, case):
         if ev[0] == "logged-failure":  # the failing eomReceived of the plan is logged by the server; anything else is only recorded
             ctx.count("logged_failures")
             ctx.seen("logged_failure_types", ev[1])
+    ctx.count("segments_delivered_after_loseconnection", sum(ev[1] for ev in log if ev[0] == "after-lose"))
     for r in plan.get("readers", ()):
         ctx.count("short_reads_delivered", r.short)
         ctx.count("mail_data_read_calls", r.calls)
@@ -585,6 +609,10 @@ def extend_case(ctx, case, i):
         ctx.seen("plans", "+".join(sorted(k for k in plan if k != "dk")) or "deferred-kinds-only")
         if nmsg > 1 and len(plan) > 1:
             ctx.count("second_message_after_failure_or_rejection")
+    rk = ctx.case_rng(i, "keep")
+    if rk.random() < 0.25 or (case.get("overlong") is not None and rk.random() < 0.6):
+        case.setdefault("plan", {})["keep_delivering"] = True
+        ctx.count("keep_delivering_connections")
     rr = ctx.case_rng(i, "reader")
     if rr.random() < 0.3:  # mail data that delivers SHORT READS before its end (pipe / socket like)
         case.setdefault("plan", {})
